@@ -271,7 +271,7 @@ Finish ==
 (* terminate_processes(): getpgid + killpg(SIGTERM) for every registered process that still has a pid entry *)
 RECURSIVE KillAll(_, _)
 KillAll(ps, mm) == IF ps = {} THEN mm
-                   ELSE LET p == CHOOSE x \in ps : TRUE IN KillAll(ps \ {p}, RO!OnKill(Cfg, mm, TaskOf(p), 15, FALSE))
+                   ELSE LET p == CHOOSE x \in ps : TRUE IN KillAll(ps \ {p}, RO!OnKill(Cfg, mm, TaskOf(p), 15, FALSE, TRUE))
 AfterLoop ==
     /\ pc = "after_loop"
     /\ LET victims == {p \in inflP : (Alive(proc[p]) \/ proc[p] = "zombie")} IN
